@@ -5,6 +5,7 @@ CONSTANTS
   Cap = 16
   Kinds <- KindsNone
   Script <- ScriptNone
+  Readers = 0
   GenK = 1
 VIEW View
 INVARIANT Inv_NoLostWake
